@@ -190,14 +190,14 @@ def validate(ck, traces, chunk=2000):
                 out.append((False, {'invariant': res.violated, 'tlc': '\n'.join(res.trace[-50:])}))
             continue
         if rejected:
-            sub = [part[i] for i in rejected[:1000]]
+            sub = [part[i] for i in rejected]
             r2 = tlc.run('TraceMulti', cfg.replace('INVARIANT Accept\n', 'INVARIANT Progress\n'), generated={'traces.json': json.dumps(sub)},
                          env={'VERIF_TRACES': 'traces.json'}, deque=True)
             best = {}
             for p in r2.prints:
                 if isinstance(p, dict) and 'at' in p and p['at'] > best.get(p['tid'], (0,))[0]:
                     best[p['tid']] = (p['at'], p['pc'])
-            for j, i in enumerate(rejected[:1000]):
+            for j, i in enumerate(rejected):
                 at = best.get(j + 1, (1, '?'))[0]
                 ev = part[i]['ev']
                 info[i] = {'matched_events': at - 1, 'next_event': ev[at - 1] if at - 1 < len(ev) else None}
